@@ -178,7 +178,9 @@ def gen_model(r):
         truth["dyn"] = True
     chan_prio = r.random() < 0.06
     if chan_prio:
-        extra.append("broadcast chan pa, pb; chan priority pa < pb;")
+        # every form of a channel priority declaration counts: several levels, one level, one channel, an array element, `default`
+        extra.append("broadcast chan pa, pb, pc[2]; " + r.choice(["chan priority pa < pb;", "chan priority pa;", "chan priority pa, pb;",
+                                                                  "chan priority pc[1], pa;", "chan priority default < pa;", "chan priority pb < default;"]))
         truth["prio"] = True
     r.shuffle(extra)
     gdecl += extra
